@@ -11,6 +11,7 @@ mod fam_conf;
 mod fam_store;
 mod fam_cursor;
 mod fam_meta;
+mod fam_hexenc;
 mod gen;
 mod model;
 
@@ -37,6 +38,7 @@ fn main() {
         "store" => fam_store::run(&mut rng, &tier, out),
         "cursor" => fam_cursor::run(&mut rng, &tier, out),
         "meta" => fam_meta::run(&mut rng, &tier, out),
+        "hexenc" => fam_hexenc::run(&mut rng, &tier, out),
         _ => {
             eprintln!("unknown family {}", fam);
             std::process::exit(2);
